@@ -7,11 +7,13 @@ CONSTANTS
   MaxBg = 99
   MaxLosses = 99
   MaxLogins = 99
+  Env = {"exec", "peerin", "userdisc", "midburst"}
   MaxConnFail = 99
   FixAutoJoin = TRUE
   FixDistStopped = TRUE
   FixWatchdogStopped = TRUE
   FixTimersStopped = TRUE
+  FixStaleInit = TRUE
   FixSelfAwait = TRUE
   MarksMode = TRUE
   FixQueueOnce = TRUE
